@@ -7,6 +7,8 @@ import BufrModel.Msg.Heap
 import BufrModel.Lemmas.Cache
 namespace Bufr.Heap
 open Bufr.Cache
+set_option linter.unusedSectionVars false
+set_option linter.unusedVariables false
 
 section Read
 variable {π ν : Type}
@@ -279,5 +281,222 @@ theorem map_zip_range' {α β γ : Type} (key : α → β) (F : Nat → γ) (G :
       simpa [Nat.add_assoc, Nat.add_comm 1 i] using this)]
 
 end Read
+
+/-! ### dictionaries of references read through -/
+
+section Dict
+variable {α β γ : Type} [DecidableEq α]
+
+theorem lookup_mapV (f : β → γ) (d : List (α × β)) (k : α) :
+    (d.map fun p => (p.1, f p.2)).lookup k = (d.lookup k).map f := by
+  induction d with
+  | nil => rfl
+  | cons p d ih =>
+    obtain ⟨a, b⟩ := p
+    simp only [List.map_cons, List.lookup_cons]
+    cases k == a with
+    | true => rfl
+    | false => exact ih
+
+theorem popLoop_mapV (f : β → γ) (n : Nat) (d : List (α × β)) :
+    popLoop n (d.map fun p => (p.1, f p.2)) = (((popLoop n d).1).map fun p => (p.1, f p.2), (popLoop n d).2) := by
+  induction n generalizing d with
+  | zero => rfl
+  | succ n ih =>
+    unfold popLoop
+    cases d with
+    | nil => rfl
+    | cons p d =>
+      have h1 : ((p :: d).map fun p => (p.1, f p.2)).isEmpty = false := rfl
+      have h2 : (p :: d).isEmpty = false := rfl
+      rw [h1, h2]
+      simp only [Bool.false_eq_true, if_false]
+      rw [← List.map_dropLast]
+      exact ih _
+
+end Dict
+
+section Proc
+variable {κ ι π ν φ ω : Type} [DecidableEq κ] [DecidableEq ι] [Inhabited π]
+
+/-- `r` is held by the process state: a cached table group, a cached compiled template or a kept message -/
+def IsRoot (s : HState κ ι π ν) (r : Ref) : Prop :=
+  (∃ p ∈ s.tables, p.2 = r) ∨ (∃ c, ∃ p ∈ s.compiled c, p.2 = r) ∨ (∃ p ∈ s.objs, p.2 = r)
+
+/-- `x` is (part of) an object reachable from a cache -/
+def InCache (s : HState κ ι π ν) (x : Ref) : Prop :=
+  ∃ r, ((∃ p ∈ s.tables, p.2 = r) ∨ (∃ c, ∃ p ∈ s.compiled c, p.2 = r)) ∧ x ∈ footOf s.heap r
+
+/-- `x` is (part of) an object reachable from anything the process state holds -/
+def Protected (s : HState κ ι π ν) (x : Ref) : Prop := ∃ r, IsRoot s r ∧ x ∈ footOf s.heap r
+
+/-- The ownership invariant: everything reachable from the caches and the kept messages has been
+    allocated (so that what is allocated next is FRESH: owned by nobody), and a kept message object is
+    held under one key only. -/
+structure Sep (s : HState κ ι π ν) : Prop where
+  closed : ∀ r, IsRoot s r → ∀ x : Nat, x ∈ footOf s.heap r → x < s.next
+  keyOfRoot : ∀ p ∈ s.objs, ∀ q ∈ s.objs, p.2 = q.2 → p.1 = q.1
+
+/-- the heap state is a representation of the value state (kept objects: up to shadowed entries) -/
+structure Sim (s : HState κ ι π ν) (v : State κ GroupV CompV ι (MsgV π) ν) : Prop where
+  tables : v.tables = (abs s).tables
+  compiled : ∀ c, v.compiled c = (abs s).compiled c
+  objs : ∀ key, v.objs.lookup key = (abs s).objs.lookup key
+
+theorem Sep.init : Sep (HState.init : HState κ ι π ν) := by
+  refine ⟨?_, ?_⟩
+  · intro r hr
+    rcases hr with ⟨p, hp, _⟩ | ⟨c, p, hp, _⟩ | ⟨p, hp, _⟩ <;> simp [HState.init] at hp
+  · intro p hp; simp [HState.init] at hp
+
+theorem Sim.init : Sim (HState.init : HState κ ι π ν) (State.init : State κ GroupV CompV ι (MsgV π) ν) :=
+  ⟨rfl, fun _ => rfl, fun _ => rfl⟩
+
+/-- every cell allocated so far shows what it showed (new cells may have been added) -/
+def Keeps (s s' : HState κ ι π ν) : Prop := s.next ≤ s'.next ∧ ∀ x : Nat, x < s.next → view s'.heap x = view s.heap x
+
+theorem Keeps.refl (s : HState κ ι π ν) : Keeps s s := ⟨Nat.le_refl _, fun _ _ => rfl⟩
+
+theorem Keeps.trans {s1 s2 s3 : HState κ ι π ν} (a : Keeps s1 s2) (b : Keeps s2 s3) : Keeps s1 s3 :=
+  ⟨Nat.le_trans a.1 b.1, fun x hx => (b.2 x (Nat.lt_of_lt_of_le hx a.1)).trans (a.2 x hx)⟩
+
+theorem keeps_root {s s' : HState κ ι π ν} {r : Ref} (hc : ∀ x : Nat, x ∈ footOf s.heap r → x < s.next) (hk : Keeps s s') :
+    derefGroup s'.heap r = derefGroup s.heap r ∧ derefComp s'.heap r = derefComp s.heap r ∧
+    derefMsg s'.heap r = derefMsg s.heap r ∧ footOf s'.heap r = footOf s.heap r :=
+  frame4 (hk.2 r (hc r foot_self)) (fun x hx => look_of_view (hk.2 x (hc x hx)))
+
+theorem keeps_alloc (s : HState κ ι π ν) (os : List (HObj π ν)) : Keeps s (allocMany s os) :=
+  ⟨by simp [allocMany], fun x hx => view_of_lookup (lookup_alloc_lt os s.heap x s.next hx)⟩
+
+/-- state part of the abstraction unchanged when the heap keeps what was allocated and the dictionaries stay -/
+theorem abs_keeps {s s' : HState κ ι π ν} (hs : Sep s) (hk : Keeps s s') (ht : s'.tables = s.tables)
+    (hc : s'.compiled = s.compiled) (ho : s'.objs = s.objs) : abs s' = abs s := by
+  unfold abs
+  rw [ht, hc, ho]
+  congr 1
+  · apply List.map_congr_left
+    intro p hp
+    rw [(keeps_root (hs.closed p.2 (Or.inl ⟨p, hp, rfl⟩)) hk).1]
+  · funext c
+    apply List.map_congr_left
+    intro p hp
+    rw [(keeps_root (hs.closed p.2 (Or.inr (Or.inl ⟨c, p, hp, rfl⟩))) hk).2.1]
+  · apply List.map_congr_left
+    intro p hp
+    rw [(keeps_root (hs.closed p.2 (Or.inr (Or.inr ⟨p, hp, rfl⟩))) hk).2.2.1]
+
+theorem sep_keeps {s s' : HState κ ι π ν} (hs : Sep s) (hk : Keeps s s') (ht : s'.tables = s.tables)
+    (hc : s'.compiled = s.compiled) (ho : s'.objs = s.objs) : Sep s' := by
+  have hr : ∀ r, IsRoot s' r → IsRoot s r := by
+    intro r h; unfold IsRoot at h ⊢; rw [ht, hc, ho] at h; exact h
+  refine ⟨?_, ?_⟩
+  · intro r h x hx
+    have h0 := hs.closed r (hr r h)
+    rw [(keeps_root h0 hk).2.2.2] at hx
+    exact Nat.lt_of_lt_of_le (h0 x hx) hk.1
+  · rw [ho]; exact hs.keyOfRoot
+
+theorem sim_of_abs {s s' : HState κ ι π ν} {v : State κ GroupV CompV ι (MsgV π) ν} (h : Sim s v)
+    (e : abs s' = abs s) : Sim s' v := by
+  refine ⟨?_, ?_, ?_⟩
+  · rw [e]; exact h.tables
+  · intro c; rw [e]; exact h.compiled c
+  · intro k; rw [e]; exact h.objs k
+
+theorem mem_zip_snd {α β : Type} {l1 : List α} {l2 : List β} {x : β} (h : x ∈ (l1.zip l2).map (·.2)) : x ∈ l2 := by
+  obtain ⟨p, hp, rfl⟩ := List.mem_map.1 h
+  exact (List.of_mem_zip hp).2
+
+theorem mem_range'_lt {x n len : Nat} (h : x ∈ List.range' n len) : n ≤ x ∧ x < n + len := by
+  rw [List.mem_range'_1] at h; exact h
+
+/-- loading a table group: the new group object reads as the value of the files, everything it
+    reaches is new, nothing that existed is touched -/
+theorem hLoad_spec (s : HState κ ι π ν) (f : List (Nat × DescV) × List (Nat × List Nat)) :
+    Keeps s (hLoad s f).1 ∧ (hLoad s f).1.tables = s.tables ∧ (hLoad s f).1.compiled = s.compiled ∧
+    (hLoad s f).1.objs = s.objs ∧ derefGroup (hLoad s f).1.heap (hLoad s f).2 = mkGroupV f ∧
+    (∀ x : Nat, x ∈ footOf (hLoad s f).1.heap (hLoad s f).2 → s.next ≤ x ∧ x < (hLoad s f).1.next) := by
+  obtain ⟨fb, fd⟩ := f
+  -- names
+  obtain ⟨bm, hbm0⟩ : ∃ x, x = (fb.map (·.1)).zip (List.range' s.next fb.length) := ⟨_, rfl⟩
+  obtain ⟨s1, hs1⟩ : ∃ x, x = allocMany s (fb.map fun p => HObj.desc p.2) := ⟨_, rfl⟩
+  obtain ⟨dm, hdm0⟩ : ∃ x, x = (fd.map (·.1)).zip (List.range' s1.next fd.length) := ⟨_, rfl⟩
+  obtain ⟨s2, hs2⟩ : ∃ x, x = allocMany s1 (fd.map fun row => HObj.seq row.1 (row.2.map (itemOfId bm))) := ⟨_, rfl⟩
+  obtain ⟨s3, hs3⟩ : ∃ x, x = allocMany s2 [HObj.group bm dm []] := ⟨_, rfl⟩
+  have e3 : (hLoad s (fb, fd)).1 = s3 := by subst hs3 hs2 hdm0 hs1 hbm0; rfl
+  have eg : (hLoad s (fb, fd)).2 = s2.next := by subst hs3 hs2 hdm0 hs1 hbm0; rfl
+  have n1 : s1.next = s.next + fb.length := by simp [hs1, allocMany]
+  have n2 : s2.next = s.next + fb.length + fd.length := by simp [hs2, allocMany, n1]
+  have n3 : s3.next = s2.next + 1 := by simp [hs3, allocMany]
+  have k1 : Keeps s s1 := hs1 ▸ keeps_alloc s (fb.map fun p => HObj.desc p.2)
+  have k2 : Keeps s1 s2 := hs2 ▸ keeps_alloc s1 (fd.map fun row => HObj.seq row.1 (row.2.map (itemOfId bm)))
+  have k3 : Keeps s2 s3 := hs3 ▸ keeps_alloc s2 [HObj.group bm dm []]
+  -- cells
+  have lg : s3.heap.lookup s2.next = some (HObj.group bm dm []) := by
+    have := lookup_alloc_ge [HObj.group bm dm []] s2.heap s2.next 0 (by simp)
+    simpa [hs3, allocMany] using this
+  have ls : ∀ j (hj : j < fd.length), s3.heap.lookup (s1.next + j) = some (HObj.seq fd[j].1 (fd[j].2.map (itemOfId bm))) := by
+    intro j hj
+    have a : s3.heap.lookup (s1.next + j) = s2.heap.lookup (s1.next + j) := by
+      have := lookup_alloc_lt [HObj.group bm dm []] s2.heap (s1.next + j) s2.next (by omega)
+      simpa [hs3, allocMany] using this
+    have b := lookup_alloc_ge (fd.map fun row => HObj.seq row.1 (row.2.map (itemOfId bm))) s1.heap s1.next j (by simpa using hj)
+    rw [a]
+    simpa [hs2, allocMany, hj] using b
+  have lb : ∀ i (hi : i < fb.length), s3.heap.lookup (s.next + i) = some (HObj.desc fb[i].2) := by
+    intro i hi
+    have a : s3.heap.lookup (s.next + i) = s2.heap.lookup (s.next + i) := by
+      have := lookup_alloc_lt [HObj.group bm dm []] s2.heap (s.next + i) s2.next (by omega)
+      simpa [hs3, allocMany] using this
+    have a2 : s2.heap.lookup (s.next + i) = s1.heap.lookup (s.next + i) := by
+      have := lookup_alloc_lt (fd.map fun row => HObj.seq row.1 (row.2.map (itemOfId bm))) s1.heap (s.next + i) s1.next (by omega)
+      simpa [hs2, allocMany] using this
+    have b := lookup_alloc_ge (fb.map fun p => HObj.desc p.2) s.heap s.next i (by simpa using hi)
+    rw [a, a2]
+    simpa [hs1, allocMany, hi] using b
+  have gB : groupB s3.heap s2.next = bm := by unfold groupB; rw [look_of_lookup_group lg]
+  have gD : groupD s3.heap s2.next = dm := by unfold groupD; rw [look_of_lookup_group lg]
+  have vb : (bm.map fun p => (p.1, getDesc s3.heap p.2)) = fb := by
+    have := map_zip_range' (fun a : Nat × DescV => a.1) (getDesc s3.heap) (fun a => a.2) fb s.next
+      (fun i hi => by unfold getDesc; rw [look_of_lookup_desc (lb i hi)])
+    simpa [hbm0] using this
+  have gi : ∀ j (hj : j < fd.length), getItems s3.heap (s1.next + j) = fd[j].2.map (itemOfId bm) := by
+    intro j hj; unfold getItems; rw [look_of_lookup_seq (ls j hj)]
+  have vd : (dm.map fun p => (p.1, getList s3.heap p.2)) = fd.map fun row => (row.1, row.2.map (lookupD fb)) := by
+    rw [hdm0]
+    refine map_zip_range' (fun a : Nat × List Nat => a.1) (getList s3.heap) (fun row => row.2.map (lookupD fb)) fd s1.next
+      (fun j hj => ?_)
+    unfold getList
+    rw [gi j hj, List.map_map]
+    apply List.map_congr_left
+    intro id _
+    simp only [Function.comp]
+    rw [derefItem_itemOfId, vb]
+  refine ⟨?_, rfl, rfl, rfl, ?_, ?_⟩
+  · rw [e3]; exact (k1.trans k2).trans k3
+  · rw [e3, eg]
+    unfold derefGroup mkGroupV
+    rw [gB, gD, vb, vd]
+  · rw [e3, eg]
+    intro x hx
+    have hbm : ∀ y : Nat, y ∈ bm.map (·.2) → s.next ≤ y ∧ y < s.next + fb.length := fun y hy => mem_range'_lt (mem_zip_snd (hbm0 ▸ hy))
+    have hdm : ∀ y : Nat, y ∈ dm.map (·.2) → s1.next ≤ y ∧ y < s1.next + fd.length := fun y hy => mem_range'_lt (mem_zip_snd (hdm0 ▸ hy))
+    have hit : getItems s3.heap s2.next = [] := by unfold getItems; rw [look_of_lookup_group lg]
+    have hmi : msgInner s3.heap s2.next = [] := by unfold msgInner view; rw [lg]
+    unfold footOf at hx
+    rw [gB, gD, hit, hmi] at hx
+    simp only [itemRefs, List.nil_append, List.append_nil, List.mem_cons, List.mem_append, List.mem_flatMap] at hx
+    rcases hx with rfl | (hx | hx) | ⟨(y : Nat), hy, hx⟩
+    · omega
+    · have := hbm x hx; omega
+    · have := hdm x hx; omega
+    · obtain ⟨h1, h2⟩ := hdm y hy
+      have hj : y - s1.next < fd.length := by omega
+      have : y = s1.next + (y - s1.next) := by omega
+      rw [this, gi _ hj] at hx
+      have := hbm x (itemRefs_itemOfId hx)
+      omega
+
+end Proc
 
 end Bufr.Heap
